@@ -132,6 +132,8 @@ def source(spec):
     "<table>:u<n>"         same but divisions cleared (unknown)
     "<table>:m<c1,c2,..>"  from_map with cuts at these row positions (may repeat => empty partitions)
     "<table>:k<c1,c2,..>"  same, with known divisions (index must be sorted)
+    "<table>:s<n>"         from_pandas(rows permuted, sort=True): the source sorts a private copy
+    "<table>:p<n>"         from_pandas(...).persist(): partitions held in the graph (FromGraph)
     """
     import dask_expr as dx
 
@@ -150,6 +152,13 @@ def source(spec):
         parts = cut(pdf, cuts)
         divs = [pdf.index[e] for e in [0] + cuts] + [pdf.index[-1]]
         return dx.from_delayed([delayed(_ident)(p) for p in parts], meta=pdf.iloc[:0], divisions=tuple(divs), prefix="stage")
+    if lay[0] == "s":
+        # the user's frame has its rows in another order; from_pandas(sort=True) sorts them (same content as "<table>:<n>")
+        perm = [(i * 5 + 3) % len(pdf) for i in range(len(pdf))] if len(pdf) % 5 else list(range(len(pdf) - 1, -1, -1))
+        return dx.from_pandas(pdf.iloc[perm], npartitions=int(lay[1:]), sort=True)
+    if lay[0] == "p":
+        # a persisted collection: the partition objects live in the graph and are shared by every later query
+        return dx.from_pandas(pdf, npartitions=int(lay[1:])).persist(scheduler="sync")
     if lay[0] == "a":
         arr = pdf[["a", "u", "b", "d"]].to_numpy(dtype="float64")
         return dx.from_array(arr, chunksize=max(1, len(pdf) // int(lay[1:])), columns=["a", "u", "b", "d"])
